@@ -90,12 +90,19 @@ func genBridge(t *rapid.T) Round {
 	r.Paths = drawPaths(t, names, 3)
 	r.P["bytes"] = rapid.SampledFrom([]int{0, 1, 900, 70000}).Draw(t, "bytes")
 	r.P["block"] = rapid.SampledFrom([]int{0, 0, 1, 2}).Draw(t, "block") // cloud double: 0 never parks, 1 parks after apply, 2 parks before apply
+	r.P["hfault"] = rapid.IntRange(0, 3).Draw(t, "hfault")               // bit 1: an earlier cleanup handler fails, bit 2: it is slow
 	r.P["pathFirst"] = 0
 	if r.P["variant"] == 0 && rapid.IntRange(0, 6).Draw(t, "pathFirst") == 0 {
 		r.P["pathFirst"] = 1 // the completion path fires alone first and must close the bridge by itself
 		r.Paths = []string{rapid.SampledFrom([]string{"source-eof", "target-eof"}).Draw(t, "firstPath")}
 	}
-	if r.P["variant"] == 0 && r.P["pathFirst"] == 0 && rapid.IntRange(0, 9).Draw(t, "streamCancel") == 0 {
+	if r.P["variant"] == 0 && r.P["pathFirst"] == 0 && rapid.IntRange(0, 7).Draw(t, "bandwidth") == 0 {
+		// a bandwidth-limited bridge (1 KiB/s, burst 2 KiB) that has read a 16 KiB chunk: the copy
+		// loop is waiting for tokens when the closers arrive
+		r.P["bw"] = 1
+		r.P["bytes"] = 16 * 1024
+	}
+	if r.P["variant"] == 0 && r.P["pathFirst"] == 0 && r.P["bw"] == 0 && rapid.IntRange(0, 9).Draw(t, "streamCancel") == 0 {
 		// the bridge's context is cancelled while both ends keep streaming small writes and nobody
 		// closes the conns: the copy loops leave through their every-10000-iterations context check
 		r.P["pathFirst"] = 2
@@ -136,8 +143,12 @@ func runBridge(r Round) *outcome {
 	tgtTC := session.CreateTunnelConnection("conn-tgt", tgtConn, tgtStream, 8, "m1", tid)
 	b := session.NewTunnelBridge(parent, &session.TunnelBridgeConfig{
 		TunnelID: tid, MappingID: "m1", SourceTunnelConn: srcTC, SourceConn: srcConn, SourceStream: srcStream, CloudControl: cc,
+		BandwidthLimit: int64(r.p("bw")) * 1024,
 	})
-	var mine counter
+	var mine, faulty counter
+	if m := r.p("hfault"); m != 0 {
+		b.AddCleanHandler(faultyHandler(m, &faulty))
+	}
 	b.AddCleanHandler(func() error { mine.hit(); return nil })
 
 	rc := newRace("bridge")
@@ -166,7 +177,16 @@ func runBridge(r Round) *outcome {
 		settle(bridgePrefixes, base, 2*time.Second)
 	}
 	nb := r.p("bytes")
-	if r.p("pathFirst") == 2 {
+	if r.p("bw") == 1 {
+		srcPeer.Write(make([]byte, nb))
+		// the copy loop has read the chunk and now waits for 14 s worth of tokens before writing it
+		if !pollUntil(2*time.Second, func() bool { return srcConn.BytesRead() >= int64(nb) }) {
+			o.skipped = true
+			cleanupRound()
+			return o
+		}
+		o.extraClass = append(o.extraClass, "copy-loop-waiting-for-bandwidth-tokens")
+	} else if r.p("pathFirst") == 2 {
 		// 1-byte reads on the bridge's ends: one loop iteration per byte
 		srcConn.ReadCap.Store(1)
 		tgtConn.ReadCap.Store(1)
@@ -296,6 +316,9 @@ func runBridge(r Round) *outcome {
 
 	if n := mine.get(); n != 1 {
 		o.failf("C16/bridge/cleanup-handler-ran-"+times(n), "registered cleanup handler ran %d times", n)
+	}
+	if n := faulty.get(); r.p("hfault") != 0 && n != 1 {
+		o.failf("C16/bridge/failing-or-slow-cleanup-handler-ran-"+times(n), "the cleanup handler registered before the counting one (fault mode %d) ran %d times", r.p("hfault"), n)
 	}
 	if !b.IsClosed() {
 		o.failf("C16/bridge/not-closed", "IsClosed()==false after Close")
